@@ -144,13 +144,22 @@ func blanksOf(kind string) []string {
 //	          padding on route A at boot; env: " tok \n" on the global and the admin list at boot and as a rotation
 //	          (set:v2) on route A.
 //	thorough: at boot: kind x every blank x {A, B, global, admin} x both arrangements. One step (set:bad | edit):
-//	          kind x the five blank contents x lists x arrangements. Two steps (env:, file: x the four new blank
-//	          contents x {A, global} in the arrangement of chain_test.go): every history of 1..2 steps in which the
-//	          source is blank at some point. Padded: kind x padding x {A, B, global, admin} x {boot, set:v2, edit>edit}.
-//	          All with the quick-size table.
+//	          kind x the five blank contents x lists x arrangements. Two steps (env: x {" ", "\n"} x {A, global} in
+//	          the arrangement of chain_test.go): every history of 1..2 steps in which the source is blank at some
+//	          point. Padded: kind x padding x {A, B, global, admin} x {boot, set:v2}. All with the quick-size table.
 func contentSpecs(r *runner.Run) []cfgSpec {
 	var out []cfgSpec
 	seen := map[string]bool{}
+	for name, content := range blankContents {
+		if usable(content) {
+			r.Infra("content alphabet: %q (%s) is a usable value", content, name)
+		}
+	}
+	for _, pad := range padAlphabet {
+		if p := padded(pad, "tok"); !usable(p) || p == "tok" {
+			r.Infra("content alphabet: padding %s does not pad", pad)
+		}
+	}
 	add := func(ch chainSpec) {
 		c := ch
 		if seen[c.id()] {
@@ -235,15 +244,15 @@ func contentSpecs(r *runner.Run) []cfgSpec {
 			}
 		}
 	}
-	for _, kind := range []string{"env", "file"} {
-		for _, bad := range newBlanks {
-			for _, focus := range []string{"A", "global"} {
-				for _, base := range []chainSpec{refV1, unrefBad} {
-					st := chainState{member: base.Member, content: base.Content}
-					for _, ops := range histories(st, 2, true) {
-						if meetsBad(st, ops) {
-							add(with(base, focus, kind, bad, "", false, ops...))
-						}
+	// (file: contents without a usable token are refused like an empty file: chain_test.go has those two-step
+	// histories; a blank env: value is LOADED by the unchanged tree, so what follows it is new)
+	for _, bad := range []string{"sp", "nl"} {
+		for _, focus := range []string{"A", "global"} {
+			for _, base := range []chainSpec{refV1, unrefBad} {
+				st := chainState{member: base.Member, content: base.Content}
+				for _, ops := range histories(st, 2, true) {
+					if meetsBad(st, ops) {
+						add(with(base, focus, "env", bad, "", false, ops...))
 					}
 				}
 			}
@@ -254,7 +263,6 @@ func contentSpecs(r *runner.Run) []cfgSpec {
 			for _, focus := range []string{"A", "B", "global", "admin"} {
 				add(with(refV1, focus, kind, defaultBad[kind], pad, false))
 				add(with(refV1, focus, kind, defaultBad[kind], pad, false, "set:v2"))
-				add(with(refV1, focus, kind, defaultBad[kind], pad, false, "edit", "edit"))
 			}
 		}
 	}
